@@ -145,7 +145,11 @@ theorem hTxattrwalk_others (m : Msg) : Pres OthersSame (hTxattrwalk m) := by
   · exact Pres.pure _
   · exact Pres.pure _
   · refine Pres.ite (Pres.pure _) ?_
-    oth
+    refine Pres.bind (doWalk_others _ _ _) (fun w => ?_)
+    split
+    · exact Pres.pure _
+    · refine Pres.finally' ?_ (Pres.others (decRefU_fids _))
+      exact Pres.bind (Pres.others (setRef_fids _ _)) (fun _ => Pres.bind (insertFid_others _ _) (fun _ => Pres.pure _))
 
 theorem clunkXattr_others (fid : Nat) : Pres OthersSame (clunkXattr fid) := by
   unfold clunkXattr
